@@ -3115,8 +3115,8 @@ def _parse_simple_lines(
 
             min_angle = _resolve_float_arg(min_angle_arg, 0.0)
             max_angle = _resolve_float_arg(max_angle_arg, 180.0)
-            min_pulse = _resolve_numeric_arg(min_pulse_arg, 544)
-            max_pulse = _resolve_numeric_arg(max_pulse_arg, 2400)
+            min_pulse = _resolve_float_arg(min_pulse_arg, 544)
+            max_pulse = _resolve_float_arg(max_pulse_arg, 2400)
 
             if (
                 isinstance(min_angle, (int, float))
@@ -3125,8 +3125,8 @@ def _parse_simple_lines(
             ):
                 raise ValueError("min_angle must be smaller than max_angle")
             if (
-                isinstance(min_pulse, int)
-                and isinstance(max_pulse, int)
+                isinstance(min_pulse, (int, float))
+                and isinstance(max_pulse, (int, float))
                 and min_pulse >= max_pulse
             ):
                 raise ValueError("min_pulse_us must be smaller than max_pulse_us")
